@@ -37,6 +37,37 @@ def apalache_inductive(ctx):
     return {"apalache": "IndInv inductive for symbolic N in 1..10^6", **res}
 
 
+def tlaps_proof(ctx):
+    """Unbounded proof (thorough tier): tlapm checks ExecIndProof.tla - IndInv is an invariant of the
+    executor core for EVERY N >= 1 (Init => IndInv, IndInv /\\ [Next]_vars => IndInv', PTL).  Optional:
+    if tlapm cannot be run the result says so; a failed obligation is a defect of the specification."""
+    import os
+    import re
+    import shutil
+    import subprocess
+    from .common import VERIF
+    exe = shutil.which("tlapm")
+    if not exe:
+        return {"tlaps": "not available"}
+    wd = os.path.join(ctx.dir, "tlaps")
+    os.makedirs(wd, exist_ok=True)
+    for f in ("ExecIndCore.tla", "ExecIndProof.tla"):
+        shutil.copy(os.path.join(VERIF, "spec", f), wd)
+    try:
+        p = subprocess.run([exe, "--toolbox", "0", "0", "ExecIndProof.tla"], capture_output=True, text=True,
+                           timeout=900, cwd=wd)
+    except subprocess.TimeoutExpired:
+        return {"tlaps": "timeout"}
+    out = p.stdout + p.stderr
+    m = re.search(r"All (\d+) obligations proved", out)
+    if m:
+        return {"tlaps": f"ExecIndProof: all {m.group(1)} obligations proved (IndInv invariant for every N >= 1)"}
+    m = re.search(r"(\d+)/(\d+) obligations failed", out)
+    if m:
+        raise fw.Machinery(f"TLAPS: {m.group(0)} in ExecIndProof.tla")
+    return {"tlaps": "could not run: " + out[-200:]}
+
+
 def run(ctx):
     out = []
     for cfg in HOLD[ctx.tier]:
@@ -54,6 +85,7 @@ def run(ctx):
         out.append({"cfg": cfg, "reachable": True})
     if ctx.tier != "quick":
         out.append(apalache_inductive(ctx))
+        out.append(tlaps_proof(ctx))
     return out
 
 
